@@ -16,7 +16,9 @@ RULE = ('Hypothesis: the synthesised BridgePoint component of C15 (nine classes,
         'run on the loaded model, gen_text_action on every action home; the generated text must parse to the same tree '
         'as the original (strict: node class, every scalar field, child count and order; keyword-valued fields folded, '
         'implicit / class / bridge invocation nodes treated as one class), and prebuilding the generated text in a '
-        'fresh model must generate the same text again. non-trivial = body with >= 5 statements and an invocation with '
+        'fresh model must generate the same text again. Exhaustive part: every two-operator nesting (16 x 16 binary pairs '
+        'on either side, 3 unary operators over / left of / right of each binary operator) as an assignment in function '
+        'f0, same two oracles. non-trivial = body with >= 5 statements and an invocation with '
         '>= 2 parameters or a chain of >= 2 steps or an elif; distinct = by body text.')
 ASSUMPTIONS = [
     'constants are written Group::NAME (the generator of the text writes them that way)',
@@ -121,6 +123,83 @@ def run_case(case, res=None):
         fail('second-round-exception:' + exc_bucket(e), repr(e))
 
 
+def nesting_bodies():
+    """every two-operator nesting of the expression grammar (binary in binary on either side, unary over binary,
+    binary over unary), as assignments; the printer of the harness writes the parentheses the grouping needs"""
+    from .oalgen import N, BINOPS, block
+    L = lambda v: N('IntegerNode', value=str(v))
+    B = lambda l, o, r: N('BinaryOperationNode', left=l, operator=o, right=r)
+    U = lambda o, x: N('UnaryOperationNode', operator=o, operand=x)
+    exprs = []
+    for o1 in BINOPS:
+        for o2 in BINOPS:
+            exprs.append(('%s in-left-of %s' % (o1, o2), B(B(L(1), o1, L(2)), o2, L(3))))
+            exprs.append(('%s in-right-of %s' % (o1, o2), B(L(1), o2, B(L(2), o1, L(3)))))
+        for u in ('not', '-', '+'):
+            exprs.append(('%s over %s' % (u, o1), U(u, B(L(1), o1, L(2)))))
+            exprs.append(('%s left-of %s' % (u, o1), B(U(u, L(1)), o1, L(2))))
+            exprs.append(('%s right-of %s' % (u, o1), B(L(1), o1, U(u, L(2)))))
+    out = []
+    per = 28
+    for i in range(0, len(exprs), per):
+        chunk = exprs[i:i + per]
+        stmts = [N('AssignmentNode', variable_access=N('VariableAccessNode', variable_name='v%d' % k), expression=e, _kw='')
+                 for k, (_w, e) in enumerate(chunk)]
+        out.append(([w for w, _e in chunk], N('BodyNode', block=block(stmts))))
+    return out
+
+
+def run_nestings(ctx, res):
+    tape = [0] * 200
+    for names, body in nesting_bodies():
+        _p, text, _pos = prebuildfix.layout_text(body)
+        case = {'nestings': names, 'text': text}
+        try:
+            check_text(tape, text, case)
+            res.case(text, True, classes=['operator-nestings'],
+                     sample={'nestings': names[:4], 'text': text[:300]} if len(res.samples) < 3 else None)
+        except Violation as v:
+            res.violation(v)
+
+
+def check_text(tape, text, case):
+    """a given body text in the home function:f0 of the smallest fixture"""
+    def fail(bucket, detail):
+        raise Violation(bucket, case, detail)
+    key = 'function:f0'
+    try:
+        fx = prebuildfix.Fixture(tape, texts={key: text})
+        c = [c for c in fx.callables if c.kind + ':' + c.name == key][0]
+        fx.prebuild()
+        t1 = fx.generated_text(c)
+    except Exception as e:
+        fail('nesting:exception:' + exc_bucket(e), repr(e))
+    a = oal.parse(text)
+    try:
+        b = oal.parse(t1)
+    except oal.ParseException as e:
+        fail('nesting:generated-text-does-not-parse', '%r\n%s' % (e, t1))
+    la = a.block.statement_list.children
+    lb = b.block.statement_list.children
+    if len(la) != len(lb):
+        fail('nesting:statement-count', '%d vs %d\n%s' % (len(la), len(lb), t1))
+    for k, (x, y) in enumerate(zip(la, lb)):
+        d = same_tree(x, y, 'stmt', merge_invocations=True)
+        if d:
+            w = case['nestings'][k] if k < len(case.get('nestings', [])) else '?'
+            fail('nesting:generated-tree-differs:' + w.split(' ')[1], '%s: %s\n--- original ---\n%s\n--- generated ---\n%s' % (
+                w, d, text.split('\n')[k], t1.split('\n')[k] if k < len(t1.split('\n')) else ''))
+    try:
+        fx2 = prebuildfix.Fixture(tape, texts={key: t1})
+        c2 = [c for c in fx2.callables if c.kind + ':' + c.name == key][0]
+        fx2.prebuild()
+        t2 = fx2.generated_text(c2)
+    except Exception as e:
+        fail('nesting:second-round-exception:' + exc_bucket(e), repr(e))
+    if t2 != t1:
+        fail('nesting:second-generation-differs', '--- first ---\n%s\n--- second ---\n%s' % (t1, t2))
+
+
 def first_feature(text):
     for kw in ('transform', 'bridge', 'send', '::'):
         if kw in text:
@@ -139,9 +218,13 @@ def run(ctx):
         except Exception as e:
             raise Violation('harness-exception:' + exc_bucket(e), case, repr(e))
 
+    if ctx.shard == 0:
+        run_nestings(ctx, res)
     hyp_run(ctx, res, cases(), body, ctx.pick(120, 1000), label='fixtures')
     return res
 
 
 def replay(case):
+    if 'nestings' in case:
+        return check_text([0] * 200, case['text'], case)
     run_case(case)
